@@ -381,6 +381,9 @@ def safe_execute(check: Check, scenario: dict, timeout: float) -> dict:
         out.update(res)
     except Violation as v:
         out["violation"] = {"oracle": v.oracle, "message": v.message, "key": v.key}
+        if getattr(v, "scenario", None) is not None:
+            # the violation names its own, self-contained scenario (used for minimisation and as the replay file)
+            out["violation_scenario"] = v.scenario
         partial = getattr(v, "partial", None)
         if partial:
             out.update(partial)
@@ -472,7 +475,8 @@ def _worker_chunk(args):
         if out["harness_error"]:
             agg["harness_errors"].append({"seed": s, "error": out["harness_error"], "scenario": scenario})
         if out["violation"]:
-            agg["violations"].append({"seed": s, "violation": out["violation"], "scenario": scenario})
+            agg["violations"].append({"seed": s, "violation": out["violation"],
+                                      "scenario": out.get("violation_scenario") or scenario})
         elif len(agg["samples"]) < 1 and out.get("nontrivial"):
             agg["samples"].append({"seed": s, "scenario": compact(scenario)})
     agg["fp_h"] = agg["fp_h"].hexdigest()
